@@ -42,6 +42,8 @@ MIN_COUNTERS = {'find_islands_judged': 1000, 'nontrivial_images': 500, 'oracle_i
                 'images_where_4_connectivity_differs': 20, 'monotonicity_pairs': 100, 'fit_island_calls_judged': 20,
                 'components_traced_to_island': 20, 'finder_unseeded_group_with_seed_pixel_in_its_box': 3}
 
+BATCHES_PER_JOB = 1     # importing AegeanTools + oracle self-checks cost ~8 s per worker process
+
 _checked = False
 
 
@@ -610,6 +612,7 @@ def _finder_case(o, case, distinct):
     if want or unseeded:
         distinct.add(hash(data32.tobytes()))
     o.count('finder_runs')
+    o.n_eval += 1          # the set of fitted pixel groups vs the oracle's islands
     o.count('finder_oracle_islands', len(want))
     o.count('finder_oracle_unseeded_groups', len(unseeded))
     _sensitivity(o, snr, sub, [], unseeded, inner, outer)
